@@ -63,6 +63,7 @@ var (
 )
 
 func b64u(b []byte) string { return base64.RawURLEncoding.EncodeToString(b) }
+func b64std(b []byte) string { return base64.StdEncoding.EncodeToString(b) }
 
 func getKeys() *keyring {
 	keysOnce.Do(func() {
